@@ -27,15 +27,18 @@ pub struct Tuple {
     pub nested_cwd: bool,
     /// longer stale files already sit at every output path (state left behind by an earlier invocation)
     pub stale_outputs: bool,
+    /// how the bytes are delivered: a transient-only shim plan (per-call limits and short transfers on every read and write of
+    /// every stage — what a pipe, a tty or a slow disk does). No result may depend on it.
+    pub io_plan: String,
 }
 
 impl Tuple {
     pub fn baseline() -> Tuple {
-        Tuple { profile: Profile::Debug, hash_seed: 1, clock: None, junk: 0, env: vec![], aslr: false, via_stdin: false, argv0: None, nested_cwd: false, stale_outputs: false }
+        Tuple { profile: Profile::Debug, hash_seed: 1, clock: None, junk: 0, env: vec![], aslr: false, via_stdin: false, argv0: None, nested_cwd: false, stale_outputs: false, io_plan: String::new() }
     }
     pub fn to_json(&self) -> Value {
         json!({"profile": self.profile.name(), "hash_seed": self.hash_seed, "clock": self.clock, "junk": self.junk, "env": self.env,
-               "aslr": self.aslr, "via_stdin": self.via_stdin, "argv0": self.argv0, "nested_cwd": self.nested_cwd, "stale_outputs": self.stale_outputs})
+               "aslr": self.aslr, "via_stdin": self.via_stdin, "argv0": self.argv0, "nested_cwd": self.nested_cwd, "stale_outputs": self.stale_outputs, "io_plan": self.io_plan})
     }
     pub fn from_json(v: &Value) -> Option<Tuple> {
         let mut env = Vec::new();
@@ -53,6 +56,7 @@ impl Tuple {
             argv0: v.get("argv0").and_then(|c| c.as_str()).map(|s| s.to_string()),
             nested_cwd: v.get("nested_cwd")?.as_bool()?,
             stale_outputs: v.get("stale_outputs").and_then(|x| x.as_bool()).unwrap_or(false),
+            io_plan: v.get("io_plan").and_then(|x| x.as_str()).unwrap_or("").to_string(),
         })
     }
     pub fn random(rng: &mut Rng) -> Tuple {
@@ -94,6 +98,12 @@ impl Tuple {
             argv0: match rng.below(4) { 0 => Some("fml".into()), 1 => Some("/odd path/ſml".into()), _ => None },
             nested_cwd: rng.below(4) == 0,
             stale_outputs: rng.below(4) == 0,
+            io_plan: match rng.below(8) {
+                0 => format!("i:*:l:{k};r:*:l:{k}", k = rng.pick(&[1u32, 7, 64, 1000, 4096])),
+                1 => format!("o:*:l:{k};f:*:l:{k}", k = rng.pick(&[1u32, 7, 64, 1000])),
+                2 => format!("i:{a}:s:{n};r:{a}:s:{n};o:{b}:s:1;f:{b}:b:0", a = rng.below(3), n = 1 + rng.below(50), b = rng.below(4)),
+                _ => String::new(),
+            },
         }
     }
 }
@@ -145,7 +155,7 @@ fn child_for(t: &Tuple, args: &[&str]) -> Child {
     c.env = t.env.clone();
     c.aslr = t.aslr;
     c.argv0 = t.argv0.clone();
-    c.shim = Some(ShimCfg { seed: t.hash_seed, plan: String::new(), clock: t.clock.clone(), junk: t.junk, budget: None });
+    c.shim = Some(ShimCfg { seed: t.hash_seed, plan: t.io_plan.clone(), clock: t.clock.clone(), junk: t.junk, budget: None }); // no call budget: liveness is C06's and C08's claim, and the CPU watchdog bounds the child
     c
 }
 
@@ -368,6 +378,7 @@ fn varying_fields(a: &Tuple, b: &Tuple) -> String {
     if a.argv0 != b.argv0 { v.push("argv0"); }
     if a.nested_cwd != b.nested_cwd { v.push("cwd"); }
     if a.stale_outputs != b.stale_outputs { v.push("stale_outputs"); }
+    if a.io_plan != b.io_plan { v.push("io_plan"); }
     v.join("+")
 }
 
@@ -395,6 +406,7 @@ pub fn minimise(c: &Case, oracle: &str) -> Case {
     }
     try_field!(env);
     try_field!(stale_outputs);
+    try_field!(io_plan);
     try_field!(argv0);
     try_field!(nested_cwd);
     try_field!(via_stdin);
@@ -471,6 +483,11 @@ fn exercise(name: &str, spec: &ProgSpec, rng: &mut Rng, n_tuples: usize, history
     let mut t = base_t.clone(); t.profile = Profile::Release; tuples.push(t);
     let mut t = base_t.clone(); t.hash_seed = rng.next_u64(); tuples.push(t);
     let mut t = base_t.clone(); t.clock = Some("1700000000000000000:1000;1:-9000000000".into()); t.via_stdin = true; tuples.push(t);
+    if name.starts_with("stress:") {
+        // the one environment variable the Rust runtime itself reads for thread stacks, small and large
+        let mut t = base_t.clone(); t.env = vec![("RUST_MIN_STACK".into(), "262144".into())]; tuples.push(t);
+        let mut t = base_t.clone(); t.env = vec![("RUST_MIN_STACK".into(), "67108864".into())]; t.profile = Profile::Release; tuples.push(t);
+    }
     while tuples.len() < n_tuples { tuples.push(Tuple::random(rng)); }
     let mut seeds: Vec<u64> = vec![base_t.hash_seed];
     let (mut aslr_on, mut back, mut clock_reads, mut rel, mut stdin_n) = (0u64, 0u64, 0u64, 0u64, 0u64);
@@ -579,6 +596,12 @@ pub fn run(seed: u64, tier: &str, ev: &mut Evidence) -> Vec<Violation> {
     for (name, src) in work::scale_templates() {
         specs.push((format!("scale:{}", name), ProgSpec::Source(src)));
     }
+    // W1s: the stress templates inside the stated bounds (chains of 10^3 links, call depth 10^5, nesting 200, cycles): where the
+    // native stack is used most, the build profile, the environment (RUST_MIN_STACK) and the address-space layout matter most
+    for (name, src) in super::c10::stress_templates() {
+        if name.starts_with("scale_") || name.contains("on_a_heap_of_300000") { continue; }
+        specs.push((format!("stress:{}", name), ProgSpec::Source(src)));
+    }
     // W1e: programs at the limits of the format's index widths and of the compiler's own checks —
     // where debug-only assertions, overflow checks and `as` casts could make the profiles disagree.
     for (name, src) in limit_templates() {
@@ -594,7 +617,7 @@ pub fn run(seed: u64, tier: &str, ev: &mut Evidence) -> Vec<Violation> {
         }
         super::util::breadcrumb("C11", json!({"kind": "program", "program": specs[i].1.to_json()}));
         // scale templates cost seconds per observation in the debug build: fewer tuples, same coverage of the two forced ones
-        let nt = if specs[i].0.starts_with("scale:") { 4 } else { n_tuples };
+        let nt = if specs[i].0.starts_with("scale:") { 4 } else if specs[i].0.starts_with("stress:") { 6 } else { n_tuples };
         exercise(&specs[i].0, &specs[i].1, &mut rng, nt, &history)
     });
     let mut raw = Vec::new();
